@@ -509,6 +509,9 @@ func runSched(prop, tier string) int {
 			r.HarnessError(fmt.Sprintf("%s: %s: %s", phase, t.Prog, res.HarnessErr))
 			return
 		}
+		if os.Getenv("VERIF_VERBOSE") != "" {
+			fmt.Fprintf(os.Stderr, "  %s %s: %d executions, %d findings (%.1fs)\n", phase, t.Prog, res.Executions, len(res.Findings), r.Elapsed().Seconds())
+		}
 		total.execs += res.Executions
 		total.pruned += res.Pruned
 		total.states += res.States
